@@ -1196,3 +1196,126 @@ func ruleUP(w *world.World, r *report.RuleResult) {
 		r.Fail("UP|anchor", "", "no assignment to ACL.Users found in the acl package: the anchor of the rule is lost")
 	}
 }
+
+// ---- GL ----
+
+func init() {
+	register("GL", 2, "compiled patterns follow the user table: AuthorizeConnection matches keys and channels against ACL.GlobPatterns, which CompileGlobs fills from the users' pattern lists; every function of the acl package that changes the user list or a user's rules reports success only after CompileGlobs ran (otherwise a pattern brought in by that change has no compiled form and the authorizer cannot apply it)", ruleGL)
+}
+
+func ruleGL(w *world.World, r *report.RuleResult) {
+	isUsersAddr := func(v ssa.Value) bool {
+		fa, ok := v.(*ssa.FieldAddr)
+		return ok && world.FieldName(fa) == "Users" && world.TypeIs(fa.X.Type(), "internal/modules/acl", "ACL")
+	}
+	n := 0
+	for _, fn := range w.FuncsIn("internal/modules/acl") {
+		if strings.Contains(w.Pos(fn.Pos()), "_test.go") || fn.Parent() != nil {
+			continue
+		}
+		const DIRTY world.Facts = 1
+		mutates := false
+		gen := func(in ssa.Instruction) world.Facts {
+			switch x := in.(type) {
+			case *ssa.Store:
+				if isUsersAddr(x.Addr) {
+					return DIRTY
+				}
+			case ssa.CallInstruction:
+				if f := x.Common().StaticCallee(); f != nil && f.Signature.Recv() != nil && world.TypeIs(f.Signature.Recv().Type(), "internal/modules/acl", "User") {
+					switch world.BaseName(f) {
+					case "Merge", "Replace", "UpdateUser":
+						return DIRTY
+					}
+				}
+			}
+			return 0
+		}
+		kill := func(in ssa.Instruction) world.Facts {
+			if c, ok := in.(ssa.CallInstruction); ok {
+				if _, isDefer := in.(*ssa.Defer); isDefer {
+					return 0
+				}
+				if f := c.Common().StaticCallee(); f != nil && world.BaseName(f) == "CompileGlobs" {
+					return DIRTY
+				}
+			}
+			return 0
+		}
+		for _, b := range fn.Blocks {
+			for _, in := range b.Instrs {
+				if gen(in) != 0 {
+					mutates = true
+				}
+			}
+		}
+		if !mutates || world.BaseName(fn) == "CompileGlobs" {
+			continue
+		}
+		// deletions need no compilation (stale compiled patterns are harmless); a function that only
+		// removes users is still required to be clean only if it also adds/edits
+		may := world.May(fn, nil, gen, kill)
+		name := world.FuncName(fn)
+		k := 0
+		for _, ret := range world.Returns(fn) {
+			rv := world.RetVals(ret)
+			if len(rv) > 0 && world.IsErrorType(rv[len(rv)-1].Type()) && !world.IsNilConst(rv[len(rv)-1]) {
+				continue // failure return
+			}
+			if world.FactsAt(may, ret, gen, kill)&DIRTY == 0 {
+				continue
+			}
+			if onlyRemoves(fn) {
+				continue
+			}
+			k++
+			n++
+			r.Fail(fmt.Sprintf("%s|compiled-after-change#%d", name, k), w.InstrPos(ret), fmt.Sprintf("%s changes the user list or a user's rules and can report success without CompileGlobs having run afterwards: a key or channel pattern introduced by the change has no compiled form, so AuthorizeConnection cannot match it - allowed resources are refused (the lookup of the missing pattern fails) and, if that lookup is ever made tolerant, exclusions silently stop applying", name))
+		}
+		if k == 0 {
+			n++
+			r.OK(name+"|compiled-after-change", w.Pos(fn.Pos()), "every success return after a change of the user table is preceded by CompileGlobs")
+		}
+	}
+	if n == 0 {
+		r.Fail("GL|anchor", "", "no function of the acl package changes the user table: the anchor of the rule is lost")
+	}
+}
+
+// onlyRemoves: every assignment to ACL.Users in fn shrinks the list (slices.Delete*).
+func onlyRemoves(fn *ssa.Function) bool {
+	any := false
+	for _, b := range fn.Blocks {
+		for _, in := range b.Instrs {
+			st, ok := in.(*ssa.Store)
+			if !ok {
+				continue
+			}
+			fa, ok := st.Addr.(*ssa.FieldAddr)
+			if !ok || world.FieldName(fa) != "Users" {
+				continue
+			}
+			any = true
+			c, ok := world.Unwrap(st.Val).(*ssa.Call)
+			if !ok {
+				return false
+			}
+			f := c.Call.StaticCallee()
+			if f == nil || !strings.HasPrefix(f.String(), "slices.Delete") {
+				return false
+			}
+		}
+	}
+	if !any {
+		return false
+	}
+	for _, c := range world.Calls(fn) {
+		if f := c.Common().StaticCallee(); f != nil && f.Signature.Recv() != nil {
+			switch world.BaseName(f) {
+			case "Merge", "Replace", "UpdateUser":
+				return false
+			}
+		}
+	}
+	return true
+}
